@@ -142,4 +142,31 @@ def exactPolySolver (spin : Bool) (vars : List Label) (p : Poly) : List Row := e
 /-- `ExactSolver.sample(bqm)` -/
 def exactBqmSolver (vars : List Label) (m : Bqm) : List Row := exactRows m.spin vars m.energy
 
+/-! ## `PolyScaleComposite.sample_poly` with the refusal of `scalar = 0` (repository fix cca1a20) -/
+
+/-- the two exceptions of `PolyScaleComposite.sample_poly` -/
+inductive PolyScaleErr where
+  /-- `if not scalar: raise ValueError("scalar must be non-zero")` (reached only when `scalar is not None`) -/
+  | scalarZero
+  /-- `ZeroDivisionError` of `BinaryPolynomial.normalize` (a range end is 0; reached only when `scalar is None`) -/
+  | rangeZero
+  deriving DecidableEq, Repr
+
+/-- `PolyScaleComposite.sample_poly` as coded now, total over `scalar`: `scalar is not None` → `if not scalar: raise
+    ValueError` (before anything is scaled and before the child is called, whatever `ignored_terms` is), else
+    `poly.scale(scalar, …)`; `scalar is None` → the normalisation with its `ZeroDivisionError` -/
+def polyScaleCompositeFull (child : Poly → List Row) (p : Poly) (scalar : Option Rat) (biasRange : RangeArg)
+    (polyRange : Option RangeArg) (ignored : List (List Label)) : Except PolyScaleErr (List Row) :=
+  match scalar with
+  | some s => if s = 0 then .error .scalarZero else .ok (polyScaleSample child p s ignored)
+  | none =>
+    match polyNormalizeSample child p biasRange polyRange ignored with
+    | none => .error .rangeZero
+    | some rows => .ok rows
+
+/-- the exception of an outcome, if any -/
+def polyScaleErrOf : Except PolyScaleErr (List Row) → Option PolyScaleErr
+  | .error e => some e
+  | .ok _ => none
+
 end Enum
